@@ -15,10 +15,9 @@ import (
 	"bytes"
 	"encoding/json"
 	"fmt"
-	"strconv"
-	"strings"
 
 	"github.com/zmap/zcrypto/tls"
+	"verifharness/c30/tlsfmt"
 	"verifharness/vh"
 )
 
@@ -273,57 +272,8 @@ func enumSmall(k int, has bool, depth int) (uint64, int) {
 }
 
 // ---- Coq printers ----
-// bytes packed 7 per primitive integer (WireTLS.pk); long runs of one byte value as (nrep n b)
-func hb(b []byte) string {
-	if len(b) == 0 {
-		return "(@nil N)"
-	}
-	if len(b) < 600 {
-		return pk(b)
-	}
-	var segs []string
-	start := 0
-	for i := 0; i < len(b); {
-		j := i
-		for j < len(b) && b[j] == b[i] {
-			j++
-		}
-		if j-i >= 256 {
-			if i > start {
-				segs = append(segs, pk(b[start:i]))
-			}
-			segs = append(segs, fmt.Sprintf("(nrep %d%%N %d%%N)", j-i, b[i]))
-			start = j
-		}
-		i = j
-	}
-	if start < len(b) {
-		segs = append(segs, pk(b[start:]))
-	}
-	if len(segs) == 1 {
-		return segs[0]
-	}
-	return "(" + strings.Join(segs, " ++ ") + ")"
-}
+func hb(b []byte) string { return tlsfmt.HB(b) }
 
-func pk(b []byte) string {
-	var sb strings.Builder
-	sb.WriteString("(pk ")
-	sb.WriteString(strconv.Itoa(len(b)))
-	sb.WriteString(" [")
-	for i := 0; i < len(b); i += 7 {
-		var x uint64
-		for j := i; j < i+7 && j < len(b); j++ {
-			x = x<<8 | uint64(b[j])
-		}
-		if i > 0 {
-			sb.WriteString(";")
-		}
-		sb.WriteString(strconv.FormatUint(x, 10))
-	}
-	sb.WriteString("]%uint63)")
-	return sb.String()
-}
 func hbs(l [][]byte) string {
 	xs := make([]string, len(l))
 	for i, b := range l {
